@@ -94,13 +94,17 @@ func c06Run(c C06Case, limit int64) (*h.Obs, int, string) {
 		in.WriteString("RCPT TO:<okprobe@x>\r\nNOOP\r\n")
 		nCmd = 4
 	}
-	// every conversation ends with a second transaction whose message is exactly as large as the limit
+	// every conversation ends with a second (chunked) and a third (DATA) transaction whose messages are exactly as large as the limit
 	// allows (chunked): the budget of a transaction must not survive it
 	if c.Kind != "size" && c.N >= 2 && c.N <= 100 {
 		in.WriteString("RSET\r\nMAIL FROM:<ok@a2.example>\r\nRCPT TO:<ok@b2.example>\r\n")
 		// chunked whatever came before (BDAT keeps a per-transaction octet count on the connection), in two chunks
 		fmt.Fprintf(&in, "BDAT 1\r\ns")
 		fmt.Fprintf(&in, "BDAT %d LAST\r\n%s", c.N-1, strings.Repeat("s", int(c.N)-1))
+		// and a third one of exactly N octets via DATA
+		in.WriteString("MAIL FROM:<ok@a3.example>\r\nRCPT TO:<ok@b3.example>\r\nDATA\r\n")
+		_, w3 := dataMessage(int(c.N), false)
+		in.Write(w3)
 		in.WriteString("NOOP\r\n")
 	}
 	var segs [][]byte
@@ -161,14 +165,16 @@ func evalC06(c C06Case) *h.Finding {
 	codes := o.Codes()
 	// the second transaction (see c06Run): RSET MAIL RCPT [DATA 354] final NOOP, all positive
 	if c.Kind != "size" && c.N >= 2 && c.N <= 100 {
-		nTail := 6 // RSET MAIL RCPT BDAT BDAT-LAST NOOP
+		nTail := 10 // RSET MAIL RCPT BDAT BDAT-LAST | MAIL RCPT DATA(354) final NOOP
 		if len(o.Replies) < nTail {
 			return h.F("c06-second-transaction", "%s: replies %s", desc, codes)
 		}
 		tail := o.Replies[len(o.Replies)-nTail:]
 		for i, r := range tail {
 			ok := r.Code == 250
-			_ = i
+			if i == 7 {
+				ok = r.Code == 354
+			}
 			if !ok {
 				return h.F("c06-second-transaction", "%s: after the refused message a second transaction with a message of exactly N octets was not accepted: replies %s", desc, codes)
 			}
